@@ -866,6 +866,8 @@ def run(chk):
              "differ or none is mentioned (tabulated with stubbed year extraction)", floor=8, control=True)
     chk.rule('C10.span', "hand-assembled (start,end,PT..H..M) durations denote end - start (tabulated for h 0..23 x m in 0,1,15,30,45,59)",
              floor=3, control=True)
+    chk.rule('C10.borrow', "a date-time range with one dated end point: the undated point borrows the date of the other and each point keeps its "
+             "own time of day (future and past values; merge_two_time_points interpreted)", floor=4, control=True)
     chk.rule('C10.timespan', 'luis_time_span / period unit count equal end - start; type->suffix table', floor=8, control=True)
     chk.assume('a culture is served by the unique DurationParserConfiguration subclass of its package')
 
@@ -995,9 +997,123 @@ def run_chinese(chk, idx, W, cfg):
         words = spellings.split('|')
         chk.judge(ref_zh[L] in words, 'C10.lexicon', suffix.path, "%s[%r]" % (suffix.label, letter), '%s <- %s' % (letter, spellings),
                   'chinese: the reference word %r for unit %s is not listed under letter %r (%s)' % (ref_zh[L], L, letter, spellings), suffix.line)
+    # the parser's own lookup, interpreted for every unit code the suffix list can hand it: whatever case mapping the code
+    # applies, the code must be found in the value map (a `.get(code, 1)` that misses silently turns N months into N seconds)
+    consts = class_consts(idx, DT + 'constants.Constants')
+    zh_parsers = [k for k in idx.subclasses(idx.cls(DT + 'base_duration.BaseDurationParser')) if Wiring.culture_of(k) == 'chinese'
+                  and 'parse' in k.methods]
+    if len(zh_parsers) != 1:
+        raise AnalysisError('chinese: duration parser class with its own parse() not found')
+    zp = zh_parsers[0]
+    pfn = zp.methods['parse']
+    block = None
+    for n in ast.walk(pfn):
+        for field in ('body', 'orelse'):
+            blk = getattr(n, field, None)
+            if isinstance(blk, list) and any(isinstance(st, ast.Assign) and isinstance(st.targets[0], ast.Attribute)
+                                             and st.targets[0].attr == 'timex' and isinstance(st.value, ast.JoinedStr) for st in blk):
+                block = blk
+    if block is None:
+        raise AnalysisError('%s.parse: TIMEX assembly not found' % zp.name)
+    i_first = next((i for i, st in enumerate(block) if any(isinstance(x, ast.Attribute) and x.attr == 'unit' for x in ast.walk(st))), None)
+    i_last = max(i for i, st in enumerate(block) if isinstance(st, ast.Assign) and isinstance(st.targets[0], ast.Attribute)
+                 and st.targets[0].attr in ('timex', 'future_value'))
+    if i_first is None or i_first > i_last:
+        raise AnalysisError('%s.parse: the statement reading the unit code was not found' % zp.name)
+    chk.consulted(zp.mod.path)
+    for letter in suffix.value:
+        L = letter.upper()
+        if L not in SEC:
+            continue
+
+        def res(node):
+            if isinstance(node, ast.Attribute):
+                if isinstance(node.value, ast.Name) and node.value.id == 'Constants' and node.attr in consts:
+                    return consts[node.attr]
+                if ast.unparse(node).endswith('config.unit_value_map'):
+                    return dict(uv.value)
+            raise Undetermined('attribute %s' % ast.unparse(node)[:40])
+        ev = MiniEval(idx, zp, res)
+        rec = Obj()
+        env = {'unit_result': Obj(unit=letter, number='3'), 'inner_result': rec, 'source': Obj(text='3' + spellings_first(suffix.value[letter])),
+               'has_half_suffix': False}
+        try:
+            ev.block(block[i_first:i_last + 1], env)
+        except _ReturnSignal:
+            pass
+        except Undetermined as e:
+            raise AnalysisError('%s.parse: TIMEX/value assembly cannot be interpreted: %s' % (zp.name, e))
+        tx, val = getattr(rec, 'timex', None), getattr(rec, 'future_value', None)
+        want_tx = 'P%s3%s' % ('T' if L in ('H', 'M', 'S') else '', L[0])
+        chk.judge(tx == want_tx and val == 3 * SEC[L], 'C10.seconds', zp.mod.path, "%s.parse[unit code %r]" % (zp.name, letter),
+                  '3 x %s -> %s / %s' % (letter, tx, val),
+                  "chinese: '3%s' (unit code %r from %s) is assembled as %s with value %s; expected %s and %d - the code the parser looks up "
+                  "must be a key of %s in the spelling the tables use" % (spellings_first(suffix.value[letter]), letter, suffix.label, tx, val,
+                                                                        want_tx, 3 * SEC[L], uv.label), pfn.lineno)
     missing = [L for L in SEC if L not in {k.upper() for k in suffix.value}]
     chk.judge(not missing, 'C10.lexicon', suffix.path, '%s#letters' % suffix.label, 'letters %s' % sorted(suffix.value),
               'chinese: no duration suffix for unit letter(s) %s' % missing, suffix.line)
+
+
+def borrow_eval(idx, cls, fn, consts, case):
+    """interpret the date-borrowing part of merge_two_time_points (from the first read of the endpoints' values to the
+    stores on the result) for one case 'begin' | 'end' (= the side that carries its own date):
+    ((future_begin, future_end), (past_begin, past_end))"""
+    start = next((i for i, st in enumerate(fn.body) if isinstance(st, ast.Assign) and '.value.future_value' in ast.unparse(st.value)), None)
+    end = max((i for i, st in enumerate(fn.body) if isinstance(st, ast.Assign) and isinstance(st.targets[0], ast.Attribute)
+               and st.targets[0].attr in ('future_value', 'past_value')), default=None)
+    if start is None or end is None or end < start:
+        raise AnalysisError('%s.%s: the value part of the function was not found' % (cls.name, fn.name))
+    flags = set()
+    for st in fn.body[start:end + 1]:
+        if isinstance(st, ast.If):
+            cur = st
+            while True:
+                if isinstance(cur.test, ast.Name):
+                    flags.add(cur.test.id)
+                if len(cur.orelse) == 1 and isinstance(cur.orelse[0], ast.If):
+                    cur = cur.orelse[0]
+                else:
+                    break
+    side = {f: ('begin' if 'begin' in f else 'end' if 'end' in f else 'both' if 'both' in f else None) for f in flags}
+    if {'begin', 'end'} - set(side.values()):
+        raise AnalysisError('%s.%s: begin_has_date / end_has_date flags not recognised (%s)' % (cls.name, fn.name, sorted(flags)))
+    own = _dt.datetime(2018, 5, 3), _dt.datetime(2017, 5, 3)          # (future, past) date of the side that has one
+    refd = _dt.datetime(2016, 11, 7)                                  # the other side sits on the reference day
+    tb, te = _dt.timedelta(hours=9, minutes=10, seconds=11), _dt.timedelta(hours=17, minutes=20, seconds=21)
+    if case == 'begin':
+        b = (own[0] + tb, own[1] + tb)
+        e = (refd + te, refd + te)
+    else:
+        b = (refd + tb, refd + tb)
+        e = (own[0] + te, own[1] + te)
+    pr1 = Obj(value=Obj(future_value=b[0], past_value=b[1], comment=None), timex_str='2018-05-03T09:10:11' if case == 'begin' else 'T09:10:11')
+    pr2 = Obj(value=Obj(future_value=e[0], past_value=e[1], comment=None), timex_str='T17:20:21' if case == 'begin' else '2018-05-03T17:20:21')
+
+    def res(node):
+        if isinstance(node, ast.Attribute) and isinstance(node.value, ast.Name) and node.value.id == 'Constants' and node.attr in consts:
+            return consts[node.attr]
+        if ast.unparse(node) == 'DateUtils.min_value':
+            return _dt.datetime(1, 1, 1)
+        raise Undetermined('attribute %s' % ast.unparse(node)[:40])
+    ev = MiniEval(idx, cls, res)
+    rec = Obj()
+    env = {'parse_result1': pr1, 'parse_result2': pr2, 'result': rec}
+    for f, sd in side.items():
+        env[f] = (sd == case)
+    try:
+        ev.block(fn.body[start:end + 1], env)
+    except _ReturnSignal:
+        pass
+    except Undetermined as e2:
+        raise AnalysisError('%s.%s: date-borrowing branches cannot be interpreted: %s' % (cls.name, fn.name, e2))
+    fv, pv = getattr(rec, 'future_value', None), getattr(rec, 'past_value', None)
+    want = ((own[0] + tb, own[0] + te), (own[1] + tb, own[1] + te))
+    return (tuple(fv) if isinstance(fv, (tuple, list)) else fv, tuple(pv) if isinstance(pv, (tuple, list)) else pv), want
+
+
+def spellings_first(sp):
+    return sp.split('|')[0]
 
 
 def run_base(chk, idx, consts):
@@ -1227,6 +1343,30 @@ def run_base(chk, idx, consts):
     ctx_ = span_eval_slice(idx, tp, cs.methods['merge_two_time_points'], 'end_time', 'begin_time', _dt.datetime(2016, 11, 7, 12, 0),
                            _dt.datetime(2016, 11, 7, 16, 30), consts)
     chk.control('C10.span', _parse_pt(ctx_)[0] != 270)
+
+    # ---- C10.borrow
+    dtp = idx.cls(DT + 'base_datetimeperiod.BaseDateTimePeriodParser')
+    mtp = dtp.methods.get('merge_two_time_points')
+    if mtp is None:
+        raise AnalysisError('anchor vanished: BaseDateTimePeriodParser.merge_two_time_points')
+    chk.consulted(dtp.mod.path)
+    for case in ('begin', 'end'):
+        (gf, gp), (wf, wp) = borrow_eval(idx, dtp, mtp, consts, case)
+        for which, got, wantv in (('future', gf, wf), ('past', gp, wp)):
+            chk.judge(got == wantv, 'C10.borrow', dtp.mod.path, 'BaseDateTimePeriodParser.merge_two_time_points[%s has the date, %s value]' % (case, which),
+                      '%s' % (got,) if got != wantv else 'begin keeps 09:10:11, end keeps 17:20:21, date borrowed',
+                      "only the %s point carries a date (%s value): the range is %s, expected (%s, %s) - the undated point takes the other's date and "
+                      "keeps its own time" % (case, which, got, wantv[0], wantv[1]), mtp.lineno)
+    cb = _FakeCls(ast.parse("class P:\n    def merge_two_time_points(self, source, reference):\n"
+                            "        future_begin = parse_result1.value.future_value\n        future_end = parse_result2.value.future_value\n"
+                            "        past_begin = parse_result1.value.past_value\n        past_end = parse_result2.value.past_value\n"
+                            "        if begin_has_date:\n            pass\n        elif end_has_date:\n"
+                            "            future_begin = DateUtils.safe_create_from_min_value(future_end.year, future_end.month, future_end.day, future_begin.hour, future_begin.minute, future_begin.second)\n"
+                            "            past_begin = DateUtils.safe_create_from_min_value(past_begin.year, past_begin.month, past_begin.day, past_end.hour, past_end.minute, past_end.second)\n"
+                            "        result.future_value = (future_begin, future_end)\n        result.past_value = (past_begin, past_end)\n").body[0])
+    cb.mod = dtp.mod
+    (cgf, cgp), (cwf, cwp) = borrow_eval(idx, dtp, cb.methods['merge_two_time_points'], consts, 'end')
+    chk.control('C10.borrow', cgp != cwp and cgf == cwf)
 
     # ---- C10.timespan
     fu = idx.cls(DT + 'utilities.DateTimeFormatUtil')
